@@ -47,6 +47,10 @@ def run(model: Model, rep: Report) -> None:
     s3 = "".join(unparse(si.node).split())
     r1.check("if'ToUnicode'inspec:strm=stream_value(spec['ToUnicode'])self.unicode_map=FileUnicodeMap()CMapParser(self.unicode_map,BytesIO(strm.get_data())).run()" in s3, site(si), si.qualname, "a ToUnicode stream is parsed into a fresh map", why="changed")
 
+    # ---------------------------------------------------------------- R7 (shared with C07-R4)
+    from .c07 import tounicode_ranges_rule
+
+    tounicode_ranges_rule(model, rep, "C06-R7")
     # ---------------------------------------------------------------- R2
     r2 = rep.rule("C06-R2", "TABLE", "WinAnsi/MacRoman columns agree with Python's cp1252/mac_roman except the documented codes; columns are functions of the code; names resolve", 6)
     em = model.module("pdfminer.latin_enc")
